@@ -472,3 +472,15 @@ for _pid in ("C06", "C07", "C08", "C09", "C13", "C14", "C15", "C17", "C19"):
     if _load_theorems(_pid):
         PROPS[_pid] = _conn_claim(_pid, CONN_BASE_THMS.get(_pid, ()))
         PROPS[_pid].update(CONN_EXTRA.get(_pid, {}))
+
+# C09: the framing-level half (which byte sequences are frame errors) is proved in the codec layer (C12's theorems
+# about the reader); the state-dependent half comes with H2V/Props/C09.lean
+_c09_codec = [("H2V.Props.C12", "H2V.Props.C12.rx_oversize_rejected"), ("H2V.Props.C12", "H2V.Props.C12.decode_agrees_with_rfc"),
+              ("H2V.Props.C12", "H2V.Props.C12.reader_chunk_invariance")]
+if "C09" in PROPS:
+    PROPS["C09"]["theorems"] = _c09_codec + PROPS["C09"]["theorems"]
+    PROPS["C09"]["lean_targets"] = ["H2V.Props.C12"] + PROPS["C09"]["lean_targets"]
+else:
+    PROPS["C09"] = conn_prop(["H2V.Props.C12"], _c09_codec, CONN_PROFILES, assumptions=CONN_ASSUMPTIONS)
+C09_PROFILES = [dict(p, quick=(250 if "c09" in p["name"] else 40)) for p in CONN_PROFILES]
+PROPS["C09"]["profiles"] = C09_PROFILES
